@@ -8,6 +8,8 @@ unacknowledged (it is redelivered) or has already issued all of its consequences
 import AslModel.BrokerQ
 import AslModel.Crash
 import Proofs.C03
+import Proofs.Lemmas.CrashSeq
+import Proofs.Lemmas.CrashSeqF1
 namespace Asl.C04
 open Asl
 
@@ -81,9 +83,133 @@ theorem between_handlers_nothing_cut (fs : List Fr) : cutStep fs fs.length = fs 
 With all quirks off, and the engine dying between two handler invocations (any number of times, anywhere), a
 sequence of Task visits always completes as the crash-free run does. -/
 
-def _root_.Asl.Crash.tasks : Nat → Asl.Crash.Sk
-  | 0 => .done
-  | n + 1 => .task 0 (Asl.Crash.tasks n)
+open Asl.Crash in
+theorem count_le_one_of_nodup (xs : List Nat) (x : Nat) (h : xs.Nodup) : count xs x ≤ 1 := by
+  induction xs with
+  | nil => simp [count]
+  | cons y ys ih =>
+    simp only [List.nodup_cons] at h
+    have ih' := ih h.2
+    unfold count at ih' ⊢
+    by_cases hy : y = x
+    · subst hy
+      have h0 : (ys.filter (fun z => z == y)).length = 0 := by
+        rw [List.length_eq_zero_iff, List.filter_eq_nil_iff]
+        intro z hz hzy
+        exact h.1 ((beq_iff_eq.mp hzy) ▸ hz)
+      simp [List.filter_cons, h0]
+    · have : (y == x) = false := by simpa using hy
+      simp [List.filter_cons, this]
+      exact ih'
+
+open Asl.Crash in
+/-- what the harness would see of an execution that has ended (`Ended`): terminal, one notification, no request sent
+twice, nothing pending, nothing left to do -/
+theorem observe_ended (N : Nat) (c : Cfg) (h : Ended N c) :
+    observe c = { terminal := true, notes := 1, resent := [], pendingUnsent := [], pendingLost := [], quiet := true } := by
+  have hr : (c.sent.eraseDups).filter (fun x => decide (count c.sent x > 1)) = [] := by
+    rw [List.filter_eq_nil_iff]
+    intro x _
+    have := count_le_one_of_nodup c.sent x h.sentnd
+    simp; omega
+  simp [observe, nextOp, hr, h.evq, h.rpq, h.notes, h.timers, h.pending, h.orphans]
+
+/-! #### (i) sequences of Task visits (first attempts and retries), plain steps and Waits -/
+
+open Asl.Crash in
+/-- **Exactly once.**  For every sequence `sk` of Task visits — each event carrying any RetryCount: the event of a retry
+sends its request from the back-off timer —, plain steps and Waits, and every schedule — any operations in any order
+that the protocol has enabled, the engine dying and restarting between two handler invocations any number of times, at
+any points —, letting the engine run on crash-free ends the execution (`Ended`): exactly one terminal notification, each
+of the `tasksIn sk` requests sent exactly once (none twice: a redelivered event, first attempt or retry, whose request
+is on record as sent does not send it again; none missing), and nothing is left in the event queue, the reply queue or
+the engine's memory.  (Invariant over the operation list, no bound on its length: `Proofs/Lemmas/CrashSeq.lean`.) -/
+theorem crash_safe_sequences (sk : Sk) (hsk : sk.seq = true) (ops : List Op) (c : Cfg)
+    (hr : run Quirks.none (init sk) (ops.map (fun o => (o, none))) = some c) :
+    Ended (tasksIn sk) (drain Quirks.none (mu c) c) ∧
+      observe (drain Quirks.none (mu c) c) =
+        { terminal := true, notes := 1, resent := [], pendingUnsent := [], pendingLost := [], quiet := true } := by
+  have hi := sinv_run _ c _ (sinv_init sk hsk) hr
+  have hc := cons_run (tasksIn sk) _ c ops (sinv_init sk hsk) (cons_init sk) hr
+  obtain ⟨hi', hq⟩ := sdrain (mu c) c hi (Nat.le_refl _)
+  have he := ended_of_quiet hi' (sdrain_cons (tasksIn sk) (mu c) c hi hc) hq
+  exact ⟨he, observe_ended _ _ he⟩
+
+open Asl.Crash in
+/-- **No loss at any cut.**  The same sequences under every schedule whose handler invocations may, each, be cut short
+by a crash after any number of their broker operations (and crashes between invocations, any number of both): the
+execution is not lost — the crash-free run that follows comes to rest with the terminal notification sent (at least
+once: a handler cut after the notification and before the acknowledgement repeats it, which is why the property asks
+for less here), no event left, no timer or request pending, and still no correlation id requested twice; what may be
+left in the reply queue are replies to requests that were sent (their event acknowledged, their own acknowledgement
+cut off). -/
+theorem no_loss_under_cuts_sequences (sk : Sk) (hsk : sk.seq = true) (sched : Sched) (c : Cfg)
+    (hr : run Quirks.none (init sk) sched = some c) :
+    let c' := drain Quirks.none (mu c) c
+    c'.evq = [] ∧ 1 ≤ c'.notes ∧ c'.sent.Nodup ∧ c'.timers = [] ∧ c'.pending = [] ∧ nextOp c' = none ∧
+      (∀ r ∈ c'.rpq, r.corr ∈ c'.sent) := by
+  have hi := sinv_run _ c _ (sinv_init sk hsk) hr
+  obtain ⟨hi', hq⟩ := sdrain (mu c) c hi (Nat.le_refl _)
+  have hev := quiet_empty _ hi' hq
+  refine ⟨hev, ?_, hi'.dur.sentnd, ?_, ?_, hq, ?_⟩
+  · rcases hi'.dur.alive with h | h
+    · simp [evK, hev] at h
+    · exact h
+  · apply List.eq_nil_iff_forall_not_mem.mpr
+    intro t ht; have := hi'.vol.t_sub t ht; rw [hev] at this; cases this
+  · apply List.eq_nil_iff_forall_not_mem.mpr
+    intro t ht; have := (hi'.vol.p_sub t ht).1; rw [hev] at this; cases this
+  · intro r hr'; exact hi'.dur.corrsent _ (List.mem_map.mpr ⟨r, hr', rfl⟩)
+
+open Asl.Crash in
+theorem tasks_seq (N : Nat) : (tasks N).seq = true ∧ tasksIn (tasks N) = N := by
+  induction N with
+  | zero => exact ⟨rfl, rfl⟩
+  | succ n ih => exact ⟨ih.1, by simp [tasks, tasksIn, ih.2]⟩
+
+open Asl.Crash in
+/-- the special case of `N` Task visits in a row (the statement this file started with) -/
+theorem crash_safe_task_sequences (N : Nat) (ops : List Op) (c : Cfg)
+    (hr : run Quirks.none (init (tasks N)) (ops.map (fun o => (o, none))) = some c) :
+    Ended N (drain Quirks.none (mu c) c) ∧
+      observe (drain Quirks.none (mu c) c) =
+        { terminal := true, notes := 1, resent := [], pendingUnsent := [], pendingLost := [], quiet := true } := by
+  have := crash_safe_sequences (tasks N) (tasks_seq N).1 ops c hr
+  rwa [(tasks_seq N).2] at this
+
+open Asl.Crash in
+/-- … which is the outcome of the crash-free run (the empty schedule) -/
+theorem crash_free_task_sequences (N : Nat) :
+    Ended N (drain Quirks.none (mu (init (tasks N))) (init (tasks N))) :=
+  (crash_safe_task_sequences N [] (init (tasks N)) (by simp [run])).1
+
+namespace Witness
+open Asl.Crash
+/-- a Task whose first attempt fails and is retried (the retry's event carries RetryCount 1), then a step -/
+def retried : Sk := .task 0 (.task 1 (.step .done))
+/-- the retry's request is out (sent from its back-off timer), the engine dies, the retry's event is redelivered and its
+deferred handler runs again -/
+def schedRetry : Sched :=
+  [(.ev 0, none), (.tm 0, none), (.rp 0, none), (.ev 1, none), (.tm 1, none), (.crash, none), (.ev 1, none), (.tm 1, none)]
+/-- the last handler of one Task visit cut short after its first broker operation (the terminal notification) -/
+def schedCutNote : Sched := [(.ev 0, none), (.rp 0, some 1)]
+end Witness
+
+open Asl.Crash Witness in
+/-- the path the seeded change S-C04-4 breaks, concretely: a redelivered *retry* event whose request is out does not send it
+again — in the crash-safe protocol (the request is on record) and in the engine's (a redelivered event is taken to have
+been requested) -/
+theorem redelivered_retry_not_resent :
+    (run Quirks.none (init retried) schedRetry).map (fun c => (c.sent, (observe (drain Quirks.none 200 c)).resent, (observe (drain Quirks.none 200 c)).terminal)) =
+      some ([0, 1], [], true) ∧
+    (run Quirks.engine (init retried) schedRetry).map (fun c => (c.sent, (observe (drain Quirks.engine 200 c)).resent, (observe (drain Quirks.engine 200 c)).terminal)) =
+      some ([0, 1], [], true) := by decide +kernel
+
+open Asl.Crash Witness in
+/-- why `no_loss_under_cuts_sequences` says "at least once": a cut after the terminal notification repeats it -/
+theorem cut_repeats_terminal_notification :
+    (run Quirks.none (init (tasks 1)) schedCutNote).map (fun c => (drain Quirks.none 200 c).notes) = some 2 := by
+  decide +kernel
 
 /-! ### (ii) each quirk breaks it: the formal counterparts of the open findings C04-F1, C04-F2, C04-F4
 
@@ -130,11 +256,52 @@ theorem engine_quirks_get_stuck :
     stuckAfter Quirks.engine (tasks 1) schedF1 = some true ∧ stuckAfter Quirks.engine par2 schedF2 = some true ∧
     stuckAfter Quirks.engine nested schedF4 = some true := by decide +kernel
 
+/-! ### (iii) a quirk only hurts in its window
+
+With `requestFromTimer` (C04-F1) on, the window is: *some Task event has been delivered and its request is
+not sent yet* — formally `inWindow c`: a deferred handler is armed for an event whose correlation id is not
+among the requests sent.  Crashes anywhere else, any number of them, still let a sequence of Task visits
+complete with every request sent exactly once. -/
+
+open Asl.Crash in
+theorem quirks_only_hurt_at_their_window (N : Nat) (ops : List Op) (c : Cfg)
+    (hr : runW qF1 (init (tasks N)) ops = some c) :
+    ∃ nextId sent running, drain qF1 (mu1 c) c = cfgEnd nextId sent running ∧ sent.Nodup ∧ sent.length = N ∧
+      observe (drain qF1 (mu1 c) c) =
+        { terminal := true, notes := 1, resent := [], pendingUnsent := [], pendingLost := [], quiet := true } := by
+  have hi := inv1_run (N := N) _ c ops (inv1_init N) hr
+  obtain ⟨nextId, sent, running, hd, hnd, hlen⟩ := drain1_ends (N := N) (mu1 c) c hi (Nat.le_refl _)
+  refine ⟨nextId, sent, running, hd, hnd, hlen, ?_⟩
+  rw [hd]
+  exact observe_ended N _ ⟨rfl, rfl, rfl, hnd, hlen, rfl, rfl, rfl, rfl⟩
+
+open Asl.Crash Witness in
+/-- the window is exactly where the witness of (ii) crashes, and a crash one operation later (the request is out)
+is harmless: `runW` refuses the first schedule and accepts the second -/
+theorem window_is_tight :
+    runW qF1 (init (tasks 1)) [.ev 0, .crash] = none ∧
+    (runW qF1 (init (tasks 1)) [.ev 0, .tm 0, .crash]).isSome = true ∧
+    (run qF1 (init (tasks 1)) [nc (.ev 0)]).map inWindow = some true := by decide +kernel
+
 /-! non-vacuity -/
 example : ((BQ.run [.publish 1, .publish 2, .deliver, .deliver, .ack 1, .publish 3]).step .crash).ready
     = [{ id := 2, redelivered := true }, { id := 3 }] := by decide
 example : stepOrdered [.deliver 1, .pub, .pub, .ack 1] = true := by decide
 
+/-- hypothesis of `crash_safe_sequences`: a sequence with a retried Task, a Wait and a step, a schedule with three
+crashes that is executable -/
+example : (Asl.Crash.Sk.task 0 (.task 1 (.wait (.step .done)))).seq = true ∧
+    (Asl.Crash.run Asl.Crash.Quirks.none (Asl.Crash.init (.task 0 (.task 1 (.wait (.step .done)))))
+      ([Asl.Crash.Op.ev 0, .crash, .ev 0, .rp 0, .ev 1, .crash, .ev 1, .tm 1, .crash, .rp 1, .ev 1, .tm 1, .tick, .ev 2, .tm 2].map
+        (fun o => (o, none)))).isSome = true := by
+  decide +kernel
+/-- … of `no_loss_under_cuts_sequences`: handlers cut after 0, 1 and 2 broker operations -/
+example : (Asl.Crash.run Asl.Crash.Quirks.none (Asl.Crash.init (.task 0 (.step .done)))
+    [(.ev 0, some 0), (.ev 0, some 1), (.ev 0, none), (.rp 0, some 1), (.ev 0, none), (.rp 0, some 2), (.ev 1, none)]).isSome = true := by
+  decide +kernel
+/-- … and of `quirks_only_hurt_at_their_window`: crashes outside the window -/
+example : (Asl.Crash.runW Asl.Crash.qF1 (Asl.Crash.init (Asl.Crash.tasks 2))
+    [.ev 0, .tm 0, .crash, .rp 0, .ev 0, .tm 0, .tick, .crash, .ev 1]).isSome = true := by decide +kernel
 /-- the crash-safe protocol on the fan-out witnesses: the reply is held by the join / the nested join's events by the
 enclosing one, and the runs complete with every request sent once -/
 example : (Asl.Crash.run Asl.Crash.Quirks.none (Asl.Crash.init Witness.par2) Witness.schedF2).map
